@@ -5,8 +5,11 @@ Seeds are applied in memory (packages overlay) by `smtpverif -variant <id>`."""
 import json, os
 
 S = []
-def seed(id, prop, rule, file, old, new, note=""):
-    S.append(dict(id=id, property=prop, rule=rule, file=file, old=old, new=new, note=note))
+def seed(id, prop, rule, file, old, new, note="", more=None):
+    d = dict(id=id, property=prop, rule=rule, file=file, old=old, new=new, note=note)
+    if more:
+        d["more"] = [list(m) for m in more]
+    S.append(d)
 
 # ---------------- C01 / C02 / C07: data reader ----------------
 seed("c01-dot-kept", "C01", "R-dot-table", "data.go",
@@ -725,6 +728,15 @@ seed("c01-lf-reset-needs-cr", "C01", "R-linelimit-threshold", "lengthlimit_reade
 """	for _, chr := range b[:n] {
 		if chr == '\\n' {""", """	for i, chr := range b[:n] {
 		if chr == '\\n' && i > 0 && b[i-1] == '\\r' {""", "line count reset only for a CRLF inside one read")
+
+seed("c20-caps-shared-array", "C20", "R-no-shared-mutable-globals", "conn.go",
+"""	caps := []string{
+		"PIPELINING",
+		"8BITMIME",
+		"ENHANCEDSTATUSCODES",
+		"CHUNKING",
+	}""", """	caps := baseCaps""", "capability list built on a package-level slice with spare capacity",
+more=[("func (c *Conn) Server() *Server {", "var baseCaps = append(make([]string, 0, 16), \"PIPELINING\", \"8BITMIME\", \"ENHANCEDSTATUSCODES\", \"CHUNKING\")\n\nfunc (c *Conn) Server() *Server {")])
 
 json.dump(S, open(os.path.join(os.path.dirname(os.path.abspath(__file__)), "bank.json"), "w"), indent=1)
 print(len(S), "seeds")
